@@ -88,6 +88,8 @@ pub struct RealNode {
     /// outbound attempts in progress: peer -> conn
     pub dialing: BTreeMap<NodeId, u64>,
     pub gt: oracle::Truth,
+    /// repositories made private while the node was down
+    pub made_private: std::collections::BTreeSet<RepoId>,
 }
 
 pub struct Puppet {
